@@ -5,7 +5,7 @@ from x2p import common as C
 from x2p import impl as I
 
 HEADER = ('Require Import X2P.Base.Prelude X2P.Model.Executor X2P.Corr.Exec.\nOpen Scope Z_scope.\n')
-TITLES = ['Main', 'Other']
+TITLES = ['Main', 'Other', '0']          # the third title is a number that is not the sheet's own position: a NAME, not an index
 COLS = 'ABCDEFGH'
 
 
@@ -18,16 +18,22 @@ def gen_workbook(rng):
           'B3': '=SUM(A1:A3)', 'C1': '=IF(A1>3,B2,A2)', 'C2': '=1/0' if rng.random() < 0.5 else '=A1/A2', 'C3': '=A1&"x"'}
     if rng.random() < 0.5:
         s0['D2'] = '=Other!A1+B2'
+    if rng.random() < 0.6:
+        s0['D1'] = '=B2/0'                      # a query that fails AFTER evaluating other formula cells on the way
+    if rng.random() < 0.5:
+        # helpers whose answer could depend on what was evaluated before (VALUE tries several date notations in order)
+        s0.update({'D3': '12/31/2023', 'D4': '01/02/2023', 'C4': '=VALUE(D3)', 'B4': '=VALUE(D4)', 'A4': '=B4+1'})
     for k in rng.sample(list(s0), rng.randint(0, 3)):
         if k not in ('A1', 'A2'):
             del s0[k]
     s1 = {'A1': rng.randint(1, 9), 'B2': '=A1*3', 'C3': '=Main!A1+A1'}
-    return [['Main', s0], ['Other', s1]]
+    s2 = {'A1': 70 + rng.randint(1, 9), 'B2': "=A1+'0'!A1+Main!A1"}
+    return [['Main', s0], ['Other', s1], ['0', s2]]
 
 
 def gen_addr(rng, wide=True):
     """an address as (title, column, row) in one of the spellings Cell accepts; returns (spelling, kind)"""
-    t = rng.randrange(2)
+    t = rng.randrange(2) if rng.random() < 0.8 else 2
     c = rng.randrange(4 if not wide or rng.random() < 0.8 else 8)
     r = rng.randrange(4 if not wide or rng.random() < 0.8 else 9)
     style = rng.random()
@@ -41,11 +47,23 @@ def gen_addr(rng, wide=True):
 
 
 def gen_value(rng):
-    return rng.choice([0, 1, 5, -3, 12, 2.5, 0.5, 'hello', '', True, False, 100])
+    return rng.choice([0, 1, 5, -3, 12, 2.5, 0.5, 'hello', '', True, False, 100, 1 / 3, 2 / 3, 0.1 + 0.2, 1234.567890123456, 0.9000000000000001])
 
 
 def gen_ops(rng, n, writes=True):
     ops = []
+    if rng.random() < 0.35:
+        # directed prefix: a failing query (D1), then an edit of an input, then a query of a cell evaluated during the failure;
+        # or the two VALUE cells in either order
+        if rng.random() < 0.6:
+            ops.append(['get', rng.choice([[0, 3, 0], ['Main', 'D', '1']])])
+            if writes:
+                ops.append(['set', [[[0, 0, rng.randrange(2)], rng.choice([5, 7, 12])]]])
+            ops.append(['get', [0, 1, rng.randrange(3)]])
+        else:
+            pair = [[0, 2, 3], [0, 1, 3]]
+            rng.shuffle(pair)
+            ops += [['get', pair[0]], ['get', pair[1]], ['get', [0, 0, 3]]]
     for _ in range(n):
         r = rng.random()
         if writes and r < 0.4:
@@ -55,7 +73,7 @@ def gen_ops(rng, n, writes=True):
         elif r < 0.9:
             ops.append(['many', [gen_addr(rng) for _ in range(rng.randint(0, 3))]])
         else:
-            ops.append(['sheet', rng.choice([0, 1, 'Main', 'Other', 'Nope', 2])])
+            ops.append(['sheet', rng.choice([0, 1, 'Main', 'Other', 'Nope', 2, '0', 3])])
     return ops
 
 
